@@ -1,0 +1,54 @@
+//go:build verif
+
+// Verification hooks (build tag "verif" only): report what the lexer goroutine
+// and the parser do at the channel between them to an external tracer.  With
+// the tag off none of this is compiled (see verif_nohooks.go).
+
+package parse
+
+import (
+	"fmt"
+	"sync/atomic"
+)
+
+// VerifLexEvent is one observation at the lexer/parser channel.
+// Ev: "emit" (lexer goroutine, before the send), "recv" (parser, after the
+// receive), "exit" (lexer goroutine, run has ended).
+type VerifLexEvent struct {
+	Lexer string // identity of the lexer (one per Parse call)
+	Name  string // name of the input
+	Ev    string
+	Typ   string // item type
+	Pos   int    // byte offset of the item in the input
+	End   int    // byte offset just after the item
+}
+
+var verifLexTracer atomic.Value // of func(VerifLexEvent)
+
+// VerifSetLexTracer installs (or, with nil, removes) the tracer.  It is called
+// from both goroutines and may block.
+func VerifSetLexTracer(f func(VerifLexEvent)) {
+	if f == nil {
+		verifLexTracer.Store((func(VerifLexEvent))(nil))
+		return
+	}
+	verifLexTracer.Store(f)
+}
+
+func verifLexTrace(l *lexer, ev string, typ itemType, pos, end Pos) {
+	f, _ := verifLexTracer.Load().(func(VerifLexEvent))
+	if f == nil {
+		return
+	}
+	f(VerifLexEvent{Lexer: fmt.Sprintf("%p", l), Name: l.name, Ev: ev, Typ: typ.String(), Pos: int(pos), End: int(end)})
+}
+
+func verifLexEmit(l *lexer, typ itemType, pos, end Pos) { verifLexTrace(l, "emit", typ, pos, end) }
+func verifLexRecv(l *lexer, it item) {
+	end := it.pos + Pos(len(it.val))
+	if it.typ == itemError {
+		end = it.pos // the value of an error item is the message, not a piece of the input
+	}
+	verifLexTrace(l, "recv", it.typ, it.pos, end)
+}
+func verifLexExit(l *lexer) { verifLexTrace(l, "exit", itemEOF, l.start, l.pos) }
